@@ -24,6 +24,8 @@ func main() {
 		os.Exit(gvc.CmdReplay(os.Args[2:]))
 	case "selftest":
 		os.Exit(gvc.CmdSelftest(os.Args[2:]))
+	case "mutsweep":
+		os.Exit(gvc.CmdMutSweep(os.Args[2:]))
 	default:
 		fmt.Println("unknown command", os.Args[1])
 		os.Exit(2)
